@@ -237,7 +237,7 @@ def run(ctx):
         total.merge(st)
     # --- thread-safety of the shared serializer objects (engine T)
     from vf.common import explore_parallel
-    scfgs = [{"ser": sn_, "op": op, "i": i, "p": 2 if ctx.quick else 3, "horizon": 3000}
+    scfgs = [{"ser": sn_, "op": op, "i": i, "p": 2 if (ctx.quick or op.startswith("roundtrip")) else 3, "horizon": 3000}
              for sn_ in sorted(serializers.serializers) for op in ("dumps", "dumpsCall", "roundtrip", "roundtripCall") for i in range(4)]
     sstats = explore_parallel(ctx, sched_task, scfgs, lambda c: c["p"], lambda c: 10 ** 6)
     total.violations.extend(sstats.violations)
